@@ -67,6 +67,19 @@ def membership_const(F, fn_path, run):
     if b is None:
         return None
     ps = paths_of(b)
+    if len(ps) == 2:
+        # for x in &CONST { if *x == arg { return true; } } false
+        pname = b["params"][0].get("name")
+        yes = [p for p in ps if p.ret == ("lit", True)]
+        no = [p for p in ps if p.ret == ("lit", False)]
+        if len(yes) == 1 and len(no) == 1:
+            loops = [t for t in no[0].trace if is_call(t, "<for>")]
+            inl = [c for c in yes[0].conds if c[0] == "if" and is_call(c[1], "<in-loop>") and c[2] is True]
+            eq = [c for c in yes[0].conds if c[0] == "if" and c[2] is True and isinstance(c[1], tuple) and c[1][0] == "bin" and c[1][1] == "Eq" and
+                  pname in (tshow(c[1][2]), tshow(c[1][3])) and any(x[0] == "elem" for x in subterms(c[1]))]
+            if len(loops) == 1 and inl and eq and const_of(loops[0][2][0]) and const_of(loops[0][2][0]) == const_of(inl[0][1][2][0]) and not no[0].conds:
+                return const_of(loops[0][2][0])
+        return None
     if len(ps) != 1:
         return None
     r = ps[0].ret
